@@ -242,10 +242,24 @@ func (r *scopeRegistry) Subscope(parent *scope, prefix string, tags map[string]s
 	defer subscopeBucket.mu.Unlock()
 
 	if s, ok := r.lockedLookup(subscopeBucket, sanitizedKey); ok {
-		if _, ok = r.lockedLookup(subscopeBucket, unsanitizedKey); !ok {
-			subscopeBucket.s[unsanitizedKey] = s
+		if !s.closed.Load() || s.testScope {
+			if _, ok = r.lockedLookup(subscopeBucket, unsanitizedKey); !ok {
+				subscopeBucket.s[unsanitizedKey] = s
+			}
+			return s
 		}
-		return s
+
+		// n.b. A closed scope is still registered under the sanitized key, e.g.
+		//      because a report pass has so far only removed it under the
+		//      unsanitized one: report it and let a new scope take its place.
+		switch {
+		case parent.reporter != nil:
+			s.report(parent.reporter)
+		case parent.cachedReporter != nil:
+			s.cachedReport()
+		}
+		delete(subscopeBucket.s, sanitizedKey)
+		s.clearMetrics()
 	}
 
 	allTags := mergeRightTags(parent.tags, tags)
